@@ -180,7 +180,15 @@ where
             ret = async {pipe_fn.read().await}, if have_rawfd => {
                 let len = ret.with_context(|| format!("pipe_read from {}", src.name))?;
                 if len > 0 {
-                    pipe_fn.write(len >= params.buffer_size).await.with_context(|| format!("pipe_write to {}", dst.name))?;
+                    // a splice into a socket may move only part of what the pipe holds
+                    let mut pending = len;
+                    while pending > 0 {
+                        let n = pipe_fn.write(len >= params.buffer_size).await.with_context(|| format!("pipe_write to {}", dst.name))?;
+                        if n == 0 {
+                            return Err(err_msg(format!("pipe_write to {}: nothing written", dst.name)));
+                        }
+                        pending = pending.saturating_sub(n);
+                    }
                     stat.incr_sent_bytes(len);
                     #[cfg(feature = "metrics")]
                     counter.inc_by(len as u64);
